@@ -331,6 +331,7 @@ type Res struct {
 	Panic     bool   `json:"panic"`
 	PanicMsg  string `json:"panicmsg"`
 	Out       string `json:"out"`
+	Dump      string `json:"dump"`
 	MarshErr  string `json:"marsherr"`
 	Unchanged bool   `json:"unchanged"`
 	PriorErr  string `json:"priorerr"`
